@@ -33,12 +33,15 @@ const (
 	bkParentTwice
 	bkVar
 	bkLoop
+	bkParentFiltered
+	bkParentConcat
+	bkParentSet
 )
 
 func c10Body(kind, level int, name string, hasLower bool, inRow bool) ([]mt.Stmt, bool) {
 	tag := fmt.Sprintf("L%d.%s", level, name)
 	par := mt.Stmt(mt.P(mt.Parent{}))
-	if !hasLower && (kind == bkTextParent || kind == bkParent || kind == bkParentTwice) {
+	if !hasLower && (kind == bkTextParent || kind == bkParent || kind == bkParentTwice || kind >= bkParentFiltered) {
 		kind = bkText
 	}
 	switch kind {
@@ -58,6 +61,13 @@ func c10Body(kind, level int, name string, hasLower bool, inRow bool) ([]mt.Stmt
 			b = append(b, mt.P(mt.V("i")))
 		}
 		return b, true
+	case bkParentFiltered:
+		// the value of parent() in other positions than a bare print tag
+		return []mt.Stmt{mt.T(tag + "⟨"), mt.P(mt.Filt{E: mt.Parent{}, Name: "upper"}), mt.T("⟩")}, true
+	case bkParentConcat:
+		return []mt.Stmt{mt.T(tag + "("), mt.P(mt.Op("~", mt.Op("~", mt.S("<"), mt.Parent{}), mt.S(">"))), mt.T(")")}, true
+	case bkParentSet:
+		return []mt.Stmt{mt.Set{Name: "pp", E: mt.Parent{}}, mt.T(tag + "["), mt.P(mt.V("pp")), mt.P(mt.Filt{E: mt.V("pp"), Name: "length"}), mt.T("]")}, true
 	case bkLoop:
 		return []mt.Stmt{mt.For{Val: "x", Seq: mt.V("xs"), Body: []mt.Stmt{mt.P(mt.V("x")), mt.T(tag)}}}, true
 	}
@@ -99,9 +109,20 @@ func (p *c10) build(levels int, kinds [][]int, layout int, nameForm int, flag bo
 			}
 		}
 		body := []mt.Stmt{mt.Extends{E: ext}, mt.T("\nignored text\n")}
+		// more things outside the blocks of an extending template, none of which may produce output
+		switch (lv*7 + layout*3 + len(kinds)) % 5 {
+		case 1:
+			body = append(body, mt.If{Conds: []mt.Expr{mt.V("t_yes")}, Bodies: [][]mt.Stmt{{mt.T("LEAK-IF")}}})
+		case 2:
+			body = append(body, mt.For{Val: "q", Seq: mt.V("xs"), Body: []mt.Stmt{mt.T("LEAK-FOR"), mt.P(mt.V("q"))}})
+		case 3:
+			body = append(body, mt.P(mt.S("LEAK-PRINT")), mt.P(mt.V("v")))
+		case 4:
+			body = append(body, mt.Set{Name: "outside", E: mt.S("LEAK-SET")}, mt.T("tail text"))
+		}
 		for bi, n := range names {
 			k := kinds[lv-1][bi]
-			if k == bkTextParent || k == bkParent || k == bkParentTwice {
+			if k == bkTextParent || k == bkParent || k == bkParentTwice || k >= bkParentFiltered {
 				usesParent = true
 			}
 			b, ok := c10Body(k, lv, n, defined[n], layout == 2 && n == "a")
@@ -185,7 +206,7 @@ func (p *c10) Run(rec *core.Recorder, seed uint64, idx int, tier string) {
 	levels := r.Range(2, 6)
 	kinds := make([][]int, levels-1)
 	for lv := range kinds {
-		kinds[lv] = []int{r.Intn(8), r.Intn(8)}
+		kinds[lv] = []int{r.Intn(11), r.Intn(11)}
 	}
 	set, main, ctx, up := p.build(levels, kinds, r.Intn(4), r.Intn(3), r.Bool())
 	p.check(rec, "random", set, main, ctx, levels >= 3 || up)
